@@ -707,6 +707,11 @@ func (c *FnCtx) convert(x *ssa.Convert) {
 			c.set(comp, n)
 			c.def(x, app("mk-slice", ref, "0", app("str-len", a), app("str-len", a)))
 			c.assume(app("bytes-in-range", app("str-arr", a), app("str-len", a)))
+			if cv := x; readOnlyBytes(cv) {
+				// the bytes of a string, only ever handed to read-only searches of package bytes: nobody can
+				// write this array, it holds the string's bytes wherever it is looked at later
+				c.immutArr = append(c.immutArr, immutArr{ref, app("str-arr", a), comp, cv.Block()})
+			}
 		} else {
 			// []rune(s)
 			ref := c.allocRef()
@@ -940,4 +945,31 @@ func (c *FnCtx) frozenFreeVar(fv *ssa.FreeVar) (Term, bool) {
 		c.axioms = append(c.axioms, not(eq(t, "0")))
 	}
 	return t, true
+}
+
+// readOnlyBytes: the []byte made from a string by this conversion is used for nothing but as an argument of
+// bytes.Index / LastIndex / Contains / HasPrefix / HasSuffix / Equal / IndexAny (which only read their arguments).
+func readOnlyBytes(cv *ssa.Convert) bool {
+	refs := cv.Referrers()
+	if refs == nil {
+		return false
+	}
+	for _, r := range *refs {
+		switch r := r.(type) {
+		case *ssa.DebugRef:
+		case *ssa.Call:
+			f := r.Call.StaticCallee()
+			if f == nil || f.Pkg == nil || f.Pkg.Pkg.Path() != "bytes" || r.Call.Value == ssa.Value(cv) {
+				return false
+			}
+			switch f.Name() {
+			case "Index", "LastIndex", "Contains", "HasPrefix", "HasSuffix", "Equal", "IndexAny":
+			default:
+				return false
+			}
+		default:
+			return false
+		}
+	}
+	return true
 }
